@@ -56,6 +56,17 @@ def special_programs():
                              [S("probe"), Q(S("end"))]]]))
     out.append(("refill", [[[S("defun"), S("lp"), [S("n")], [S("if"), [S("<="), S("n"), 0], [S("probe"), Q(S("done"))], [S("lp"), [S("-"), S("n"), 1]]]]],
                            [[S("lp"), 5]], [[S("lp"), 2]], [[S("probe"), Q(S("third")), [S("lp"), 3]]]]))
+    # every new evaluation starts with a full budget WHATEVER ended the one before it: a value, an ordinary error, a host
+    # panic in a builtin called directly, through funcall / apply, as the callback of map / foldl / stable-sort, in a host
+    # macro or a host special operator
+    LP = [S("defun"), S("lp"), [S("n")], [S("if"), [S("<="), S("n"), 0], [S("probe"), Q(S("done"))], [S("lp"), [S("-"), S("n"), 1]]]]
+    faults = [[S("map"), Q(S("list")), S("boom"), Q([1, 2])], [S("funcall"), Q(S("boom"))], [S("apply"), S("boom"), Q([1])], [S("foldl"), S("boom"), 0, Q([1])],
+              [S("stable-sort"), S("boom"), [S("list"), 2, 1]], [S("boom")], [S("boom-macro"), 1], [S("boom-op"), 1], [S("error"), Q(S("plain")), 1], [S("car"), 1, 2],
+              [S("handler-bind"), [[S("internal-panic"), [S("lambda"), [S("c"), S("&rest"), S("r")], [S("funcall"), Q(S("boom"))]]]], [S("boom")]], [S("all?"), S("boom"), Q([1])]]
+    hist = [[LP]]
+    for f in faults:
+        hist += [[f], [[S("probe"), Q(S("next")), [S("lp"), 2]]]]
+    out.append(("refill-after-fault", hist))
     # nested loads made from inside function bodies (cancellation and budget must reach them)
     inner = [[S("dotimes"), [S("i"), 5], [S("probe"), Q(S("in")), S("i")]], [S("probe"), Q(S("inner-done"))]]
     out.append(("nested-load", [[[S("defun"), S("f"), [], [S("let"), [[S("x"), 1]], [S("load-string"), P.SRC(inner)]]]],
